@@ -110,7 +110,9 @@ class DirectMethod:
         if phase==1:
             self.opti = OptiWrapper(stage)
             if self._callback:
-                self.opti.callback(self._callback)
+                # bound here: the method object (and its Opti instance) in use may be a later one than the one the callback was declared on
+                cb_stage, cb_fun = self._callback
+                self.opti.callback(lambda iter : cb_fun(iter, OcpSolution(self.opti.non_converged_solution, cb_stage)))
             if self.solver is not None:
                 if self._solver is None:
                     raise Exception("You forgot to declare a solver. Use e.g. ocp.solver('ipopt').")
@@ -169,7 +171,7 @@ class DirectMethod:
         return OcpSolution(self.opti.solve_limited(), stage)
 
     def callback(self, stage, fun):
-        self._callback = lambda iter : fun(iter, OcpSolution(self.opti.non_converged_solution, stage))
+        self._callback = (stage, fun)
 
     @property
     def debug(self):
